@@ -52,7 +52,7 @@ Print Assumptions C06_validate_ok_iff.
 (* ... so an unknown segment, or a continuation below a scalar, a map or a repeated field, anywhere in
    any path, is reported as InvalidArgument *)
 Theorem C06_invalid_detected : forall sch ty ps pre s r ty1,
-  In (pre ++ s :: r) ps -> walk sch ty pre = Some ty1 ->
+  In (pre ++ s :: r)%list ps -> walk sch ty pre = Some ty1 ->
   (lookup_field sch ty1 s = None \/
    (r <> [] /\ forall f, lookup_field sch ty1 s = Some f ->
                          fcard f <> CSingular \/ forall ty', fkd f <> FMsg ty')) ->
